@@ -143,9 +143,22 @@ def r6_frame_order(ctx):
                           where=where(f))
                 n += 1
             else:
+                its = [e for e in p.events if e.kind == 'iter']
+                if its and not snd:
+                    continue     # zero-iteration path of a frame loop
                 single += 1
-                ctx.check(len(snd) == 1 and U(run.expand(
-                    snd[0].expr.args[-1])) == pkt + '.encode()', construct,
+
+                def one(arg):
+                    if U(run.expand(arg)) == pkt + '.encode()':
+                        return True
+                    d = run.sym_of(arg)
+                    # the single frame wrapped into a one-element list and
+                    # sent by the same loop as a frame list
+                    return d is not None and d['kind'] == 'loopvar' and \
+                        U(run.expand(d['expr'])) == '[%s.encode()]' % pkt
+                ok1 = bool(snd) and all(one(x.expr.args[-1]) for x in snd) \
+                    and (len(snd) == 1 or bool(its))
+                ctx.check(ok1, construct,
                     'single frame sent once', key='single-frame',
                     where=where(f))
         if not listp or not single:
